@@ -219,6 +219,27 @@ func (s *stripDelIterator) Next() bool {
 	return false
 }
 
+// stripEmptyIterator 从迭代器里剔除空版本(读取不存在的key时缓存下来的占位数据)
+type stripEmptyIterator struct {
+	ledger.XMIterator
+}
+
+func newStripEmptyIterator(xmiter ledger.XMIterator) ledger.XMIterator {
+	return &stripEmptyIterator{
+		XMIterator: xmiter,
+	}
+}
+
+func (s *stripEmptyIterator) Next() bool {
+	for s.XMIterator.Next() {
+		if IsEmptyVersionedData(s.Value()) {
+			continue
+		}
+		return true
+	}
+	return false
+}
+
 // compareBytes like bytes.Compare but treats nil as max value
 func compareBytes(k1, k2 []byte) int {
 	if k1 == nil && k2 == nil {
